@@ -489,7 +489,9 @@ func c10MethodGate(c *Ctx) {
 		}
 		return o
 	}
-	isAlgPtr := func(v ssa.Value) bool { return strings.HasSuffix(core.PathOf(v), "auth.Algorithm") || strings.HasSuffix(core.PathOf(v), ".Algorithm") }
+	isAlgPtr := func(v ssa.Value) bool {
+		return strings.HasSuffix(core.PathOf(v), "auth.Algorithm") || strings.HasSuffix(core.PathOf(v), ".Algorithm")
+	}
 	nAccept, nBad := 0, 0
 	firstBad := ""
 	budget := 50000
